@@ -79,6 +79,7 @@ class Runtime:
         self.ext_fail = {}
         self.dests = {}
         self.offered, self.accepted = [], []
+        self.failures = []  # (dest, call index, exc id, was the message a report?)
         self.api = []  # (call name, "ok" | "raised:<desc>")
         self.vars, self.ids = {}, {}
         self.probes = []
@@ -159,6 +160,7 @@ class Runtime:
                     c = rt.canon_msg(message)
                     rt.offered.append([d, c])
                     if (d, k) in rt.dest_fail:
+                        rt.failures.append((d, k, rt.dest_fail[(d, k)], c.get("message_type") == "eliot:destination_failure", c))
                         raise rt.make_exc(rt.dest_fail[(d, k)])
                     rt.accepted.append([d, c])
 
